@@ -360,3 +360,134 @@ def expected_first_error(g, rules, start, w, h):
     for q in range(len(w)):
         if not viable_prefix(g, rules, start, w[:q + 1], h): return q
     return len(w) if not derives(rules, start, tuple(w)) else None
+
+# ---------------------------------------------------------------- C16: skipped tokens are transparent (differential, same path condition)
+def strip_tree(w, keep, remap):
+    if w[0] == 'T': return ('T', remap[w[4]]) if w[4] in keep else None
+    kids = [strip_tree(k, keep, remap) for k in w[4]]
+    return ('R', w[1], [k for k in kids if k is not None])
+
+def plain_tree(w):
+    if w[0] == 'T': return ('T', w[4])
+    return ('R', w[1], [plain_tree(k) for k in w[4]])
+
+def remap_tok(x, remap):
+    if isinstance(x, tuple) and x[0] == 't': return ('t', remap.get(x[1], ('trivia', x[1])))
+    return x
+
+def c16_job(args):
+    g, prop, N, opts = args
+    t0 = time.time()
+    out = dict(name=g.name, family=g.meta.get('family'), accepted=False, reason=None, paths=0, violations=[], inconclusive=[],
+               validated=0, mismatches=[], samples=[], wall=0.0, states=0, forks=0, text=g.text(),
+               stats=dict(explored_paths=0, reused_paths=0, steps=0, queries=0, solver_time=0.0, fns=set(), models=set()),
+               prop_queries=0, prop_time=0.0, comparisons=0, extra_forks=0)
+    try:
+        h, err = harness.make_harness(g.text())
+        if h is None:
+            out['reason'] = err[0] + ': ' + (err[1] or '').strip().split('\n')[0][:200]; return out
+        out['accepted'] = True
+        if not gram.productive_rules(g) >= set(g.rules_dict()):
+            out['accepted'] = False; out['reason'] = 'excluded: unproductive rule'; return out
+        pp = run.ParserProgram(h)
+        entries = ['parse'] + ['parse_' + p for p in h.parts]
+        for entry in entries:
+            for n in range(1, N + 1):
+                results, st, hit = cached_explore(pp, entry, n, out['stats'])
+                out['paths'] += len(results)
+                cx = PathCtx(g, h, n)
+                solver = run.Solver()
+                tvars = [z3.Int(f't{i}') for i in range(n)]
+                for t in tvars: solver.add_base(z3.And(t >= h.first_tok, t < pp.NTOK))
+                xresults = []
+                for ry in results:
+                    if ry.status != 'ok' or ry.walk_err is not None: continue      # C01/C03's business
+                    pc = cx.pc(ry)
+                    triv = cx.trivia(ry, pc); core = core_positions(triv)
+                    # lookahead offered to predicates never sees a skipped token
+                    for e in ry.log:
+                        if e[0] != 4: continue
+                        for x in (e[1], e[2], e[5], e[6]):
+                            if isinstance(x, tuple) and x[0] == 't' and triv[x[1]]:
+                                v = Violation('C16', 'lookahead-sees-trivia', g, ry, f'predicate #{e[7]} was offered skipped token {x[1]} as lookahead')
+                                v.confirmed = confirm_c16(h, g, v); out['violations'].append(v.asdict())
+                    if len(core) == n: continue
+                    remap = {i: k for k, i in enumerate(core)}
+                    ty = strip_tree(ry.walk, set(core), remap)
+                    dy = [(remap[d[2]] if d[2] in remap else (len(core) if d[2] >= n else ('trivia', d[2])), d[4]) for d in ry.diags]
+                    ly = [(e[0], e[1]) + ((remap_tok(e[1], remap), remap_tok(e[2], remap), remap_tok(e[5], remap), remap_tok(e[6], remap)) if e[0] == 4 else ()) for e in ry.log]
+                    work = [[]]
+                    xv = [tvars[i] for i in core]
+                    while work:
+                        dec = work.pop()
+                        r2, rx = run.run_path(pp, solver, xv, entry, len(core), dec, extra_pc=pc)
+                        work.extend(r2.pending); out['extra_forks'] += len(r2.pending)
+                        out['stats']['steps'] += r2.steps; out['stats']['explored_paths'] += 1
+                        out['stats']['fns'] |= r2.fn_used; out['stats']['models'] |= r2.models_used
+                        out['comparisons'] += 1
+                        diff = None
+                        if rx.status != 'ok' or rx.walk_err is not None: diff = f'parse of the input without skipped tokens fails: {rx.status} {rx.msg} {rx.walk_err}'
+                        else:
+                            # in the x-run variable t_core[k] is input position k
+                            xmap = {i: k for k, i in enumerate(core)}
+                            tx = plain_tree(rx.walk)
+                            dx = [(d[2], d[4]) for d in rx.diags]
+                            lx = [(e[0], e[1]) + ((remap_tok(e[1], xmap), remap_tok(e[2], xmap), remap_tok(e[5], xmap), remap_tok(e[6], xmap)) if e[0] == 4 else ()) for e in rx.log]
+                            if tx != ty: diff = f'trees differ once skipped tokens are ignored: with trivia {ty} without {tx}'
+                            elif dx != dy: diff = f'diagnostics differ: with trivia at {dy}, without at {dx}'
+                            elif lx != ly: diff = f'callback sequence differs: with trivia {ly} without {lx}'
+                        if diff:
+                            ok, m = solver.check()
+                            wit = [m.eval(t, model_completion=True).as_long() for t in tvars]
+                            scr = ''.join('1' if z3.is_true(m.eval(z3.Bool(f'nd{k}'), model_completion=True)) else '0' for k in range(max(ry.nd, rx.nd)))
+                            v = Violation('C16', 'not-transparent', g, ry, diff, witness=wit, script=scr)
+                            v.confirmed = confirm_c16(h, g, v)
+                            out['violations'].append(v.asdict())
+                        solver.reset_pc()
+                out['prop_queries'] += cx.queries + solver.queries; out['prop_time'] += cx.time + solver.time
+                cnt, mism = run.validate_native(h, results, sample=opts.get('validate', 20), seed=opts.get('seed', 0) + n)
+                out['validated'] += cnt
+                for r, d in mism: out['mismatches'].append(f'{g.name} {entry} {[h.tokens[k] for k in r.witness]}: {d[:300]}')
+                if results and len(out['samples']) < 2:
+                    r = results[len(results) // 2]
+                    out['samples'].append(dict(grammar=g.name, entry=entry, n=n, witness_with_trivia=[h.tokens[k] for k in r.witness],
+                                               path_condition=[str(deser(c)) for c in r.pc][:10]))
+    except Unsupported as e:
+        out['inconclusive'].append(f'{g.name}: {e}')
+    except Exception as e:
+        out['inconclusive'].append(f'{g.name}: internal error {e!r} {traceback.format_exc()[-600:]}')
+    out['wall'] = time.time() - t0
+    out['stats']['fns'] = sorted(out['stats']['fns']); out['stats']['models'] = sorted(out['stats']['models'])
+    return out
+
+def native_tree(w):
+    if w[0] == 'T': return ('T', w[1], w[2])
+    return ('R', w[1], [native_tree(k) for k in w[4]])
+
+def confirm_c16(h, g, v):
+    """both inputs (with and without trivia) are run natively and compared concretely"""
+    skipset = {h.tokens.index(s) for s in g.skip} | {h.tokens.index('Error')}
+    y = v.witness; core = [i for i in range(len(y)) if y[i] not in skipset]
+    x = [y[i] for i in core]
+    oy, ox = harness.run_native(h, [(v.entry, [h.tokens[k] for k in y], v.script), (v.entry, [h.tokens[k] for k in x], v.script)], timeout=30)
+    v.native = {'with_trivia': oy if len(json.dumps(oy)) < 1500 else '...', 'without': ox if len(json.dumps(ox)) < 1500 else '...'}
+    if v.kind == 'lookahead-sees-trivia':
+        return any(e[0] == 4 and any(t in skipset for t in (e[1], e[2], e[5], e[6]) if t >= h.first_tok) for e in oy.get('log', []))
+    if any(o.get('panic') or o.get('timeout') or o.get('crash') for o in (oy, ox)) or oy['walk'] == 'PANIC' or ox['walk'] == 'PANIC':
+        return bool(not (oy.get('panic') or oy.get('timeout') or oy.get('crash')) and oy.get('walk') != 'PANIC')
+    remap = {i: k for k, i in enumerate(core)}
+    def strip(w):
+        if w[0] == 'T': return ('T', remap[w[2]]) if w[2] in remap else None
+        ks = [strip(k) for k in w[4]]
+        return ('R', w[1], [k for k in ks if k is not None])
+    def plain(w):
+        if w[0] == 'T': return ('T', w[2])
+        return ('R', w[1], [plain(k) for k in w[4]])
+    if strip(oy['walk']) != plain(ox['walk']): return True
+    n = len(y)
+    dy = [(remap.get(d[2], len(core) if d[2] >= n else -1), d[4]) for d in oy['diags']]
+    dx = [(d[2], d[4]) for d in ox['diags']]
+    if dy != dx: return True
+    ly = [(e[0], e[1]) + ((e[1], e[2], e[5], e[6]) if e[0] == 4 else ()) for e in oy['log']]
+    lx = [(e[0], e[1]) + ((e[1], e[2], e[5], e[6]) if e[0] == 4 else ()) for e in ox['log']]
+    return ly != lx
